@@ -12,10 +12,11 @@
    chain from self.leaves by object identity.  Quantification: every state satisfying the
    invariant (hence every state reached by any history), every pair of endpoints
    (option Z: None = unbounded), no relation between them assumed.
-   OBLIGATIONS: C08_iteration_sorted_complete C08_range_is_half_open C08_in_range_meaning C08_empty_or_inverted_interval C08_after_any_history C08_reachable_states_invariant C08_nonvacuous *)
+   OBLIGATIONS: C08_iteration_sorted_complete C08_range_is_half_open C08_in_range_meaning C08_empty_or_inverted_interval C08_after_any_history C08_reachable_states_invariant C08_nonvacuous C08_empty_or_inverted_interval_all *)
 From Coq Require Import List Arith ZArith NArith Lia Bool.
 From BPT Require Import Common.Base Common.AMap Rust.Tree Rust.InvDefs
   Py.Tree Py.Run Py.Inv Py.Spec Py.ReaderProofs Py.ReachFinal Py.Corollaries.
+From BPT Require Import Extra.PyExtra.
 Import ListNotations.
 
 (* items(), keys(), values(): all entries, each once, strictly ascending by key *)
@@ -58,3 +59,9 @@ Proof. exact py_reachable_inv. Qed.
 (* non-vacuity: three-level states reached by a history satisfy PyInv; the readers are
    evaluated on one of them with present, absent, inverted, empty and None endpoints *)
 Definition C08_nonvacuous := (demo_heights, demo_states_inv, demo_outputs_tail, demo_readers).
+
+(* items, range, keys and values all yield nothing for an empty or inverted interval *)
+Theorem C08_empty_or_inverted_interval_all : forall s x y, PyInv s -> (y <= x)%Z ->
+  py_items s (Some x) (Some y) = Ok [] /\ py_range s (Some x) (Some y) = Ok [] /\
+  py_keys s (Some x) (Some y) = Ok [] /\ py_values s (Some x) (Some y) = Ok [].
+Proof. exact PyExtra.empty_or_inverted_interval_all. Qed.
